@@ -102,6 +102,15 @@ class AllocatorAwarePointer
 
     constexpr AllocatorAwarePointer& operator=(const AllocatorAwarePointer& other)
     {
+        copy_assign(other, [] {});
+        return *this;
+    }
+
+    // Copy assignment that calls `before_deallocate` after the allocation (which might throw) and before the old memory
+    // is deallocated or reused.
+    template <class Function>
+    constexpr void copy_assign(const AllocatorAwarePointer& other, Function&& before_deallocate)
+    {
         if (this != std::addressof(other))
         {
             if constexpr (AllocatorTraits::propagate_on_container_copy_assignment::value &&
@@ -111,11 +120,12 @@ class AllocatorAwarePointer
                 {
                     // allocate first because it might throw
                     auto new_ptr = AllocatorAwarePointer::allocate_if_not_zero(other.size(), other.get_allocator());
+                    before_deallocate();
                     deallocate();
                     propagate_on_container_copy_assignment(other);
                     size() = other.size();
                     get() = new_ptr;
-                    return *this;
+                    return;
                 }
             }
             propagate_on_container_copy_assignment(other);
@@ -123,12 +133,16 @@ class AllocatorAwarePointer
             {
                 // allocate first because it might throw
                 auto new_ptr = AllocatorAwarePointer::allocate_if_not_zero(other.size(), get_allocator());
+                before_deallocate();
                 deallocate();
                 size() = other.size();
                 get() = new_ptr;
             }
+            else
+            {
+                before_deallocate();
+            }
         }
-        return *this;
     }
 
     constexpr AllocatorAwarePointer& operator=(AllocatorAwarePointer&& other) noexcept
